@@ -346,8 +346,40 @@ var skFormatRe = regexp.MustCompile(`^_SK_%s(_%s)*$`)
 // sprintfParts: if v is fmt.Sprintf(constFormat, args...) returns format and the vararg values.
 func sprintfParts(v ssa.Value) (string, []ssa.Value, bool) {
 	cv, ok := resolve(v).(*ssa.Call)
-	if !ok || !staticIs(cv, "fmt.Sprintf") {
+	if !ok {
 		return "", nil, false
+	}
+	if !staticIs(cv, "fmt.Sprintf") {
+		// a formatting helper of the package: `func h(format string, parts ...any) string { return fmt.Sprintf(format, parts...) }`
+		h := staticCallee(cv)
+		if h == nil || h.Blocks == nil || h.Pkg == nil || cv.Parent() == nil || cv.Parent().Pkg != h.Pkg {
+			return "", nil, false
+		}
+		rets := returnsOf(h)
+		if len(rets) != 1 || len(rets[0].Results) != 1 {
+			return "", nil, false
+		}
+		inner, isC := resolve(returnedValue(rets[0], 0)).(*ssa.Call)
+		if !isC || !staticIs(inner, "fmt.Sprintf") {
+			return "", nil, false
+		}
+		fi, vi := -1, -1
+		for k, p := range h.Params {
+			if resolve(inner.Call.Args[0]) == ssa.Value(p) {
+				fi = k
+			}
+			if resolve(inner.Call.Args[1]) == ssa.Value(p) {
+				vi = k
+			}
+		}
+		if fi < 0 || vi < 0 || fi >= len(cv.Call.Args) || vi >= len(cv.Call.Args) {
+			return "", nil, false
+		}
+		k, isK := constOf(cv.Call.Args[fi])
+		if !isK || k.Kind() != constant.String {
+			return "", nil, false
+		}
+		return constant.StringVal(k), varargValues(cv.Call.Args[vi]), true
 	}
 	k, isC := constOf(cv.Call.Args[0])
 	if !isC || k.Kind() != constant.String {
